@@ -9,7 +9,7 @@ RULE = ("cycles of 1..6 elements (durations 1..9, sometimes up to 10^6; all colo
 ASSUMPTIONS = ["numpy cumsum/insert/argmax on int64 denote their list counterparts (sampled by the correspondence)",
                "durations and time steps fit in int64 (numpy); the model uses unbounded integers"]
 EXTRA_MODULES = ['CRProps.T17']      # translator tie: Gen.Src (regenerated from /repo every run) = hand model
-REQUIRED_BUCKETS = ["single-element", "t<offset", "boundary", "many-periods", "light/cycle-replaced"]
+REQUIRED_BUCKETS = ["single-element", "t<offset", "boundary", "many-periods", "light/cycle-replaced", "light/inactive", "light/active", "cycle/setter-after-query"]
 
 
 def _states():
@@ -72,7 +72,9 @@ def run_case(ctx, case):
 
     impl, impl_light = [], []
     cyc = mk()
-    light = TrafficLight(1, np.array([0.0, 0.0]), mk())
+    # an inactive light still "agrees with its cycle" (the property makes no exception); active both ways
+    light = TrafficLight(1, np.array([0.0, 0.0]), mk(), active=(off + len(es)) % 3 != 0)
+    ctx.tag("light/inactive" if not light.active else "light/active")
     for t in ts:
         r = call(cyc.get_state_at_time_step, t)
         impl.append({"ok": st.index(r[1])} if r[0] == "ok" else {"err": r[1]})
@@ -108,6 +110,26 @@ def run_case(ctx, case):
                      {"es": es, "off": off, "ts": [t]})
             break
     ctx.tag("light/cycle-replaced")
+    # the cycle itself after its offset / elements are changed through the setters (query -> set -> query)
+    cyc3 = mk()
+    for t in ts[:3]:
+        call(cyc3.get_state_at_time_step, t)
+    off3 = off + 1 + (len(es) % 4)
+    cyc3.time_offset = off3
+    es3 = es
+    if len(ts) % 2 == 0:
+        es3 = es[::-1]
+        cyc3.cycle_elements = [TrafficLightCycleElement(st[s], d) for s, d in es3]
+    for t in ts[:10]:
+        a3 = call(cyc3.get_state_at_time_step, t)
+        want3 = oracle_state(es3, off3, t)
+        if a3[0] != "ok" or st.index(a3[1]) != want3:
+            ctx.fail("C17/cycle.get_state_at_time_step/wrong-state-after-setter",
+                     f"after queries, time_offset = {off3}" + (" and cycle_elements reversed" if es3 is not es else "") +
+                     f": t={t} reports {a3[1] if a3[0] == 'ok' else a3[2]}, the cycle definition gives {st[want3].name}",
+                     {"es": es, "off": off, "ts": ts[:3] + [t]})
+            break
+    ctx.tag("cycle/setter-after-query")
     tt = ts[len(ts) // 2]
     r1, r2 = call(mk().get_state_at_time_step, tt), call(mk().get_state_at_time_step, tt + total)
     if r1[:2] != r2[:2]:
